@@ -64,13 +64,24 @@ def validate_args(ctx, args, kwargs):
 
 validate_args.modifies = []
 
-TYPES = {"TagValueCollection._tag_values": "dict[str, TagValue]", "CommandCollection.commands": "dict[str, Command]",
+def new_item(ctx, args, kwargs):
+    """AnalyzerItem(id, message, node, type, ...): an item carrying that id, node and type. ASSUMED not to raise for parser-made nodes
+    (its range arithmetic reads node.position / threshold / children); `length` and `end` must not both be given (checked here)"""
+    both = ("length" in kwargs) and ("end" in kwargs)
+    ctx.check("item-range-given-by-length-or-end-not-both", z3.BoolVal(not both), "call-site")
+    return ctx.new_object("AnalyzerItem", id=args[0], message=args[1], node=args[2], type=args[3])
+
+
+new_item.modifies = []
+
+TYPES = {"AnalyzerItem.node": "Node | None", "AnalyzerItem.type": "AnalyzerItemType", "AnalyzerItem.id": "str",
+         "TagValueCollection._tag_values": "dict[str, TagValue]", "CommandCollection.commands": "dict[str, Command]",
          "AnalyzerVisitorBase.items": "list[AnalyzerItem]", "Node.instruction_name": "str", "Node.arguments": "str",
          "Node.instruction_part": "str", "Node.has_argument": "bool", "Node.line": "str",
          "TagOperatorValue.tag_name": "str | None", "TagOperatorValue.op": "str", "TagOperatorValue.rhs": "str",
          "TagOperatorValue.tag_value": "str | None", "TagOperatorValue.tag_unit": "str | None", "TagValue.unit": "str | None",
          "NodeWithCondition.tag_operator_value": "TagOperatorValue | None", "SimulateNode.tag_operator_value": "TagOperatorValue | None"}
-CALLS = {"ratio": ratio, "get_compatible_unit_names": units, "are_comparable": comparable,
+CALLS = {"AnalyzerItem": new_item, "ratio": ratio, "get_compatible_unit_names": units, "are_comparable": comparable,
          "super().visit_SimulateNode": super_visit, "super().visit_SimulateOffNode": super_visit,
          "command.validate_args": validate_args}
 OPTS = {"lenient": True, "protected_prefixes": (), "opaque_subscript": True}
@@ -118,3 +129,23 @@ TRUSTED = ["Levenshtein.ratio, get_compatible_unit_names, Command.validate_args 
 CLAUSES = {"analysis completes without raising": "raises={} on the four name-resolving analyzer methods (the other analyzers and the visitor framework are NOT under contract)",
            "every undefined tag/command reference and every incomplete condition is an error on the offending line": "postconditions (2), (3)"}
 EXPLANATION = "Exception-freedom and reporting postconditions on the four analyzer methods that resolve names."
+
+
+def replay(obligation, witness):
+    """Native oracle: the real SemanticCheckAnalyzer on small method texts (names with and without close matches)."""
+    import contracts.c19_native as n
+    r = n.check_all()
+    return {"confirmed": bool(r["violated"]), **r}
+
+
+REPLAY_WITHOUT_WITNESS = True
+
+
+def _nat():
+    import contracts.c19_native as n
+    r = n.check_all()
+    return {"ok": not r["violated"], "observation": r}
+
+
+NATIVE = [("native:analysis-of-small-methods-reports-and-never-raises", _nat)]
+BOUNDED = ["18 small method texts through the real parser and SemanticCheckAnalyzer (bounded cross-check, not counted)"]
